@@ -259,17 +259,21 @@ def judge_design(case, im, mo):
         return
     if mo["problems"]:
         yield ("oracle", {"why": "design_pipeline_wf says this list is empty", "problems": mo["problems"][:5]})
-    if [m["name"] for m in mo["ok"]] != [q["name"] for q in im["package"]]:
+    # (modules are matched by name: in which order the exporter writes them — beyond "after what they instantiate", which WFpkg judges — is its own business)
+    if sorted(m["name"] for m in mo["ok"]) != sorted(q["name"] for q in im["package"]):
         yield ("corr", f"modules of the package: {[q['name'] for q in im['package']]} vs model {[m['name'] for m in mo['ok']]}")
         return
-    for b, q in zip(mo["ok"], im["package"]):
+    byname = {q["name"]: q for q in im["package"]}
+    for b, q in ((b, byname[b["name"]]) for b in mo["ok"]):
         a = q["module"]
         if a["signals"] != b["signals"] or [(p["n"], p["dir"]) for p in a["ports"]] != [(p["n"], p["dir"]) for p in b["ports"]]:
             yield ("corr", f"module {q['name']}: signal / port lists {a['signals']} {a['ports']} vs model {b['signals']} {b['ports']}")
-        if [i["n"] for i in a["instances"]] != [i["n"] for i in b["instances"]]:
-            yield ("pred", {"why": f"module {q['name']} does not have the designer's instances in their order"})
+        if sorted(i["n"] for i in a["instances"]) != sorted(i["n"] for i in b["instances"]):
+            yield ("pred", {"why": f"module {q['name']} does not have the designer's instances"})
             continue
-        for (iname, reads), ib in zip(q["reads"], b["instances"]):
+        bmod = {i["n"]: i for i in b["instances"]}
+        for (iname, reads) in q["reads"]:
+            ib = bmod[iname]
             if reads != [[pn, bits] for pn, bits in ib["reads"]]:
                 yield ("pred", {"why": f"{q['name']}.{iname}: the bits read on its ports are not the bits the designer's connections denote", "got": reads, "want": ib["reads"]})
                 break
@@ -303,10 +307,15 @@ def judge(case, im, mo):
         yield ("corr", f"signal list: {a['signals']} vs model {b['signals']}")
     if [(p["n"], p["dir"]) for p in a["ports"]] != [(p["n"], p["dir"]) for p in b["ports"]]:
         yield ("corr", f"port list: {a['ports']} vs model {b['ports']}")
-    if [i["n"] for i in a["instances"]] != [i["n"] for i in b["instances"]]:
-        yield ("pred", {"why": "the exported module does not have the designer's instances in their order", "got": [i["n"] for i in a["instances"]]})
+    # (which instance stands where in the module is no business of the property: instances are matched by name — an exporter or an
+    # ArrayFlattener that takes them in another order is as right; found by the behaviour-preserving change C01-b2-3)
+    if sorted(i["n"] for i in a["instances"]) != sorted(i["n"] for i in b["instances"]):
+        yield ("pred", {"why": "the exported module does not have the designer's instances", "got": [i["n"] for i in a["instances"]], "want": [i["n"] for i in b["instances"]]})
         return
-    for (iname, reads), ib, ia in zip(im["reads"], b["instances"], a["instances"]):
+    bmod = {i["n"]: i for i in b["instances"]}
+    amod = {i["n"]: i for i in a["instances"]}
+    for (iname, reads) in im["reads"]:
+        ib, ia = bmod[iname], amod[iname]
         want = [[pn, bits] for pn, bits in ib["reads"]]
         if reads != want:
             yield ("pred", {"why": f"instance {iname}: the bits read on its ports are not the bits the designer's connections denote", "got": reads, "want": want})
